@@ -19,6 +19,7 @@ import (
 const modulePath = "github.com/reeflective/readline"
 
 type Engine struct {
+	finalKeys map[string]bool
 	repo          string
 	verif         string
 	prog          *ssa.Program
@@ -86,7 +87,23 @@ func LoadEngine(repo, verif string) (*Engine, error) {
 	if err := e.cs.LoadAll(repo, verif, filepath.Join(verif, "specs")); err != nil {
 		return nil, err
 	}
+	e.finalKeys = map[string]bool{}
+	for _, fd := range e.cs.Finals {
+		e.finalKeys[fd.Key] = true
+	}
 	return e, nil
+}
+
+// allFuncs: every function of the module (methods, closures, instances), in a stable order.
+func (e *Engine) allFuncs() []*ssa.Function {
+	var fs []*ssa.Function
+	for _, f := range e.funcs {
+		if e.inModule(f) && f.Blocks != nil {
+			fs = append(fs, f)
+		}
+	}
+	sort.Slice(fs, func(i, j int) bool { return fs[i].String() < fs[j].String() })
+	return fs
 }
 
 func (e *Engine) inModule(f *ssa.Function) bool {
@@ -181,6 +198,20 @@ func (e *Engine) typeOfAST(pkgPath string, x ast.Expr) (types.Type, error) {
 		obj := p.Scope().Lookup(t.Sel.Name)
 		if tn, ok := obj.(*types.TypeName); ok {
 			return tn.Type(), nil
+		}
+		// several packages can share a name (golang.org/x/sys/unix, internal/syscall/unix): take the one
+		// that has the type, in a stable order
+		var paths []string
+		for path, q := range e.tpkgs {
+			if q.Name() == id.Name {
+				paths = append(paths, path)
+			}
+		}
+		sort.Strings(paths)
+		for _, path := range paths {
+			if tn, ok := e.tpkgs[path].Scope().Lookup(t.Sel.Name).(*types.TypeName); ok {
+				return tn.Type(), nil
+			}
 		}
 		return nil, fmt.Errorf("unknown type %s.%s", id.Name, t.Sel.Name)
 	case *ast.StarExpr:
